@@ -68,6 +68,13 @@ func main() {
 		if sc.Configs != nil && len(os.Args) < 5 {
 			cfg = sc.Configs(false)[0]
 		}
+		for _, kv := range os.Args[4:] { // trace <scenario> <maxsteps> [name=value ...]
+			if i := strings.IndexByte(kv, '='); i > 0 {
+				var v int
+				fmt.Sscan(kv[i+1:], &v)
+				cfg[kv[:i]] = v
+			}
+		}
 		var n int
 		fmt.Sscan(os.Args[3], &n)
 		sc.MaxSteps = n
